@@ -285,7 +285,10 @@ func (c *compiler) compileType(y *Type, parent Leafable, isUnion bool) error {
 		}
 	}
 
-	if y.format == val.FmtLeafRef || y.format == val.FmtLeafRefList {
+	if _, inTypedef := parent.(*Typedef); inTypedef && (y.format == val.FmtLeafRef || y.format == val.FmtLeafRefList) {
+		// path is relative to each leaf using the typedef and resolved there
+		y.delegate = y
+	} else if y.format == val.FmtLeafRef || y.format == val.FmtLeafRefList {
 		if y.path == "" {
 			return fmt.Errorf("%s - %s path is required", SchemaPath(parent), y.ident)
 		}
